@@ -572,6 +572,11 @@ FIXED = [
     # (the chain must start from its modulus)
     ("X_ERROR(0.125) 0\nT 0\nT 0\nT 0\nX_ERROR(0.125) 0\nM 0\nT 0\nM 0", False),
     ("T 0\nSQRT_X 0\nY_ERROR(0.125) 1\nT 1\nCZ 0 1\nCZ 1 0\nCNOT 0 1\nH 1\nSQRT_X 1\nX_ERROR(0.125) 1\nT 0\nM 0 1", False),
+    # rotations by odd multiples of pi/8 and pi/16 (the scalar phase of some decomposition terms is then k pi/8: neither a power of
+    # e^{i pi/4} nor a "generic" float), alone, summed, next to T gates and noise
+    ("H 0\nR_Z(0.125) 0\nH 0\nM 0\nH 0\nR_Z(0.375) 0\nH 0\nM 0", False),
+    ("H 0 1\nR_Z(0.125) 0\nCX 0 1\nR_X(0.875) 1\nT 0\nH 0\nM 0 1\nM 0 1", False),
+    ("U3(0.125, 0.375, 0.875) 0\nX_ERROR(0.25) 0\nH 0\nR_Y(0.625) 0\nM 0\nR_X(0.0625) 0\nR_X(0.0625) 0\nM 0", False),
 ]
 
 
